@@ -99,6 +99,12 @@ CHECKS = {
         "technique": SMT + "; identities of symbolic linear forms over exhaustive bounded operation sequences",
         "design_ref": "DESIGN.md section 5 (C15)",
     },
+    "C20": {
+        "text": "Bounded symbolic check: the real partitioner (Mesher._Mesh_Get_Meshes, gmsh behind it) runs on small single-type, mixed-type and 3-D meshes for part counts up to the number of elements; ownership of elements and nodes, exactness of the ghost layer (own elements + every element touching an owned node, nothing else), global numbering / coordinates and reproducibility are exact set facts on its output. Every entry of every element matrix K_e, M_e and vector F_e is a fresh symbolic real attached to the global element; a real simulation assembles on each part alone (MPI emulated in one process) and the rows of K, M, F at the dofs the part owns are decided equal to the rows of the globally assembled system for all element values; sum over parts of the real Calc_Energy / Calc_Reaction equals 1/2 x^T K x / K x for a symbolic dof vector. Mesh.Merge: coordinates, connectivity and a symbolic affine nodal field through the returned mapping for coincident / disjoint / identical / three meshes and a partition round trip.",
+        "note": "Trusted: Sym linear-form arithmetic; gmsh's partitioner output is concrete data (FFI) - the set relations on it are exact ground facts, not solver queries; MPI emulation (MPI_SIZE / MPI_RANK set in the simulation module, allreduce = identity per part, sum formed by the check). Real mpirun / PETSc execution is outside. Meshes <= 38 elements.",
+        "technique": SMT + "; linear identities over symbolic element entries on real partitions",
+        "design_ref": "DESIGN.md section 5 (C20)",
+    },
 }
 
 NOT_APPLICABLE = {
